@@ -96,6 +96,8 @@ class PUnit:
             if not rep.obligations:
                 res.errors.append(f"zero obligations generated for {c.target} (vacuous contract)")
                 continue
+            for vc in getattr(rep, "vacuous_calls", []):
+                res.errors.append(f"vacuity guard: in {c.target}: {vc}")
             solver.discharge(rep, timeout_ms=ctx.timeout_ms)
             res.trusted |= set(rep.trusted_used)
             counts = {}
@@ -251,6 +253,25 @@ def finding_for(pid, v, findings):
     return None
 
 
+_UNITS = []
+
+
+def _run_unit_idx(i, ctx):
+    return _run_unit(_UNITS[i], ctx)
+
+
+def _run_unit(u, ctx):
+    try:
+        r = u.run(ctx)
+    except (Unsupported,) as e:
+        r = UnitResult(u.name, u.tier)
+        r.undecided.append(f"UNSUPPORTED in unit {u.name}: {e}")
+    except Exception:
+        return "crash", f"unit {u.name} crashed:\n{traceback.format_exc()}"
+    r.trusted = set(r.trusted)
+    return "ok", r
+
+
 def run_check(pid, units, tier, seed, level, notes=None, checker_cmd=None, assumptions=()):
     t0 = time.time()
     ctx = Ctx(pid, tier, seed)
@@ -261,15 +282,31 @@ def run_check(pid, units, tier, seed, level, notes=None, checker_cmd=None, assum
         if old.startswith(pid + "-"):
             os.unlink(os.path.join(VERIF, "replays", old))
     results, crashed = [], []
-    for u in units:
-        try:
-            results.append(u.run(ctx))
-        except (Unsupported,) as e:
-            r = UnitResult(u.name, u.tier)
-            r.undecided.append(f"UNSUPPORTED in unit {u.name}: {e}")
-            results.append(r)
-        except Exception:
-            crashed.append(f"unit {u.name} crashed:\n{traceback.format_exc()}")
+    parallel = len(units) > 1 and os.environ.get("VERIF_SEQUENTIAL") != "1"
+    if parallel:
+        # units are independent: run each in its own forked process (bounded units start their own worker pools inside)
+        import concurrent.futures as cf
+        import multiprocessing as mp
+        with cf.ProcessPoolExecutor(max_workers=len(units), mp_context=mp.get_context("fork")) as ex:
+            global _UNITS
+            _UNITS = list(units)           # inherited by the forked workers (contracts hold closures and cannot be pickled)
+            futs = [ex.submit(_run_unit_idx, i, ctx) for i in range(len(units))]
+            for u, f in zip(units, futs):
+                try:
+                    kind, payload = f.result()
+                except Exception:
+                    kind, payload = "crash", f"unit {u.name} crashed in its worker:\n{traceback.format_exc()}"
+                if kind == "ok":
+                    results.append(payload)
+                else:
+                    crashed.append(payload)
+    else:
+        for u in units:
+            kind, payload = _run_unit(u, ctx)
+            if kind == "ok":
+                results.append(payload)
+            else:
+                crashed.append(payload)
     findings = load_findings()
     new_violations, known_hits = [], {}
     for r in results:
